@@ -50,7 +50,7 @@ def _maps(rng, vals_lo, vals_hi, present):
     return old, [rng.randint(vals_lo - 40, vals_hi + 40) for _ in old]
 
 
-def gen(rng, tier):
+def _gen0(rng, tier):
     n = G.budget(700) if tier == 'quick' else 12000
     for _ in range(n):
         labs, akind = G.alphabet(rng)
@@ -78,7 +78,7 @@ def gen(rng, tier):
         # narrow integer arrays whose label span exceeds the type's maximum; zero-length trajectories
         # at the front, in the middle and at the END of a list of arrays
         dtype = rng.choice(['int8', 'int8', 'int16', 'uint8', 'int32'])
-        lo, hi = {'int8': (-128, 127), 'int16': (-32768, 32767), 'uint8': (0, 255), 'int32': (-70000, 70000)}[dtype]
+        lo, hi = {'int8': (-128, 127), 'int16': (-32768, 32767), 'uint8': (0, 255), 'int32': (-200000, 200000)}[dtype]
         k = rng.randint(2, 6)
         labs = sorted(set([rng.choice([lo, lo + 1, lo + 5]), rng.choice([hi, hi - 1, hi - 3])] + [rng.randint(lo, hi) for _ in range(k)]))
         form = rng.choice(['arr1', 'arr2', 'loa', 'loa'])
@@ -119,6 +119,10 @@ def gen(rng, tier):
         yield 'EXHAUSTIVE'
 
 
+def gen(rng, tier):
+    return G.with_layouts(rng, _gen0(rng, tier), p_alt=0.2)
+
+
 def corpus():
     return [
         {'k': 'shift', 'form': 'loa', 'trajs': [[-3, 5, 2], [5]], 'old': [-3, 5], 'new': [5, -3], 'alpha': 'corpus'},
@@ -154,7 +158,7 @@ def shrink(case):
 def impl(case):
     import msmhelper as mh
     from implutil import build, canon
-    data = build(case['form'], case['trajs'], dtypes=[case['dtype']] if case.get('dtype') else None)
+    data = build(case['form'], case['trajs'], dtypes=[case['dtype']] if case.get('dtype') else None, layout=case.get('layout'))
     k = case['k']
 
     def intact():
@@ -301,6 +305,6 @@ def nontrivial(case, ibc):
 
 def describe(case, ibc):
     r = next(iter(ibc.values()))
-    return ['call:' + case['k'], 'form:' + case['form'], 'alphabet:' + case['alpha'],
+    return ['call:' + case['k'], 'form:' + case['form'] + ('/' + case['layout'] if case.get('layout') else ''), 'alphabet:' + case['alpha'],
             'ntraj:%d' % len(case['trajs']),
             'outcome:' + ('err-' + r['err'] if 'err' in r else 'ok')]
